@@ -13,6 +13,9 @@ WORK = os.path.join(ROOT, ".work")
 BIN = os.path.join(BUILD, "bin")
 
 PROFILE_DIR = {"dev": "debug"}
+# The repository under observation. Always /repo for the registered checks; tools/trymut_scratch.sh runs a
+# private copy of /verif against a scratch worktree and sets VERIF_REPO (its driver/Cargo.toml is rewritten too).
+REPO = os.environ.get("VERIF_REPO", "/repo")
 
 
 class BuildError(Exception):
@@ -30,7 +33,7 @@ def ensure_lock():
     """The driver's Cargo.lock starts from /repo's (pinned versions)."""
     lock = os.path.join(DRIVER, "Cargo.lock")
     if not os.path.exists(lock):
-        shutil.copy("/repo/Cargo.lock", lock)
+        shutil.copy(os.path.join(REPO, "Cargo.lock"), lock)
 
 
 def build(profile="dev", features=(), kind="main", quiet=True):
